@@ -396,7 +396,20 @@ fn run_case(tracer: &Tracer, f: &Fields, case: &Value) {
     let stored: Vec<Value> = f.schema.fields().map(|(_, e)| json!({"name":e.name(),"stored":e.is_stored()})).collect();
     let mut docs_per_seg = vec![];
     let mut big = vec![];
-    for seg in case["segs"].as_array().unwrap() {
+    // `seg_comp`: the compressor of the index while each segment is written (the codec changes during the life of
+    // the index); `created`: the segments in the order of their creation (one per commit)
+    let mut comp_cur = cfg["comp"].as_str().unwrap_or("lz4").to_string();
+    let mut created: Vec<tantivy::index::SegmentId> = vec![];
+    for (si, seg) in case["segs"].as_array().unwrap().iter().enumerate() {
+        if let Some(c) = case.get("seg_comp").and_then(|x| x.get(si)).and_then(|x| x.as_str()) {
+            if c != comp_cur {
+                let _ = w.wait_merging_threads();
+                index.settings_mut().docstore_compression = if c == "none" { Compressor::None } else { Compressor::Lz4 };
+                w = index.writer_with_num_threads(1, 20_000_000).expect("writer");
+                w.set_merge_policy(Box::new(NoMergePolicy));
+                comp_cur = c.to_string();
+            }
+        }
         let specs = seg.as_array().unwrap();
         docs_per_seg.push(specs.len());
         for spec in specs {
@@ -421,6 +434,11 @@ fn run_case(tracer: &Tracer, f: &Fields, case: &Value) {
             }
         }
         w.commit().expect("commit");
+        for sid in index.searchable_segment_ids().unwrap_or_default() {
+            if !created.contains(&sid) {
+                created.push(sid);
+            }
+        }
     }
     tracer.emit(json!({"ev":"store","case":case["id"],"cfg":cfg,"schema":stored,"docs":rendered,"docs_per_seg":docs_per_seg,"big":if big.is_empty() { Value::Null } else { json!(big) }}));
     let mut run = Run { tracer, f, index: index.clone(), cache: cfg["cache"].as_u64().unwrap_or(100) as usize,
@@ -498,8 +516,8 @@ fn run_case(tracer: &Tracer, f: &Fields, case: &Value) {
     if case["merge"].as_bool().unwrap_or(false) {
         // optionally the docstore compressor of the index is changed before the merge (the older
         // segments keep their codec): a new writer is created on the index with the new settings
-        let mut comp_now = cfg["comp"].as_str().unwrap_or("lz4").to_string();
-        if let Some(mc) = case.get("merge_comp").and_then(|x| x.as_str()) {
+        let mut comp_now = comp_cur.clone();
+        if let Some(mc) = case.get("merge_comp").and_then(|x| x.as_str()).filter(|mc| *mc != comp_cur) {
             let _ = w.wait_merging_threads();
             index.settings_mut().docstore_compression = if mc == "none" { Compressor::None } else { Compressor::Lz4 };
             w = index.writer_with_num_threads(1, 20_000_000).expect("writer");
@@ -507,8 +525,14 @@ fn run_case(tracer: &Tracer, f: &Fields, case: &Value) {
             run.index = index.clone();
             comp_now = mc.to_string();
         }
-        let ids = index.searchable_segment_ids().unwrap();
-        // merge in the order of creation (meta.json order is a hash order): sort by the first stored id
+        let mut ids = index.searchable_segment_ids().unwrap();
+        // `merge_order`: the sources in this order (indices of the segments in creation order); otherwise the order of meta.json
+        if let Some(mo) = case.get("merge_order").and_then(|x| x.as_array()) {
+            let want: Vec<tantivy::index::SegmentId> = mo.iter().filter_map(|x| x.as_u64()).filter_map(|i| created.get(i as usize).cloned()).filter(|sid| ids.contains(sid)).collect();
+            if want.len() == ids.len() {
+                ids = want;
+            }
+        }
         if !ids.is_empty() {
             let r = w.merge(&ids).wait();
             tracer.emit(json!({"ev":"merged","ok":r.is_ok(),"n":ids.len(),"comp":comp_now}));
